@@ -149,7 +149,7 @@ class Obis:
         if self._groups[0]:
             obis_code += f"{self._groups[0]}-"
         if self._groups[1]:
-            obis_code += obis_code + f"{self._groups[1]}:"
+            obis_code += f"{self._groups[1]}:"
         obis_code += f"{self._groups[2]}.{self._groups[3]}"
         if self._groups[4]:
             obis_code += f".{self._groups[4]}"
